@@ -366,8 +366,19 @@ func init() {
 		in.callValue(caller, pos, args[1], nil)
 		return nil
 	})
+	// sync.Pool: by default every Get builds a new object (a pool may always do that). With the harness
+	// bound pool_reuse=1 a Get returns the most recently Put object when there is one (what a real pool
+	// does on one goroutine without GC in between), so state left behind in pooled objects is visible.
 	reg("(*sync.Pool).Get", func(in *Interp, caller *frame, pos token.Pos, fn *ssa.Function, args []Value) Value {
 		c := cellOf(args[0])
+		if in.p != nil && in.cfg.Params["pool_reuse"] == 1 {
+			if st, ok := in.p.sync[poolKey{c}].(*poolState); ok && len(st.items) > 0 {
+				v := st.items[len(st.items)-1]
+				st.items = st.items[:len(st.items)-1]
+				in.noteUsed("sync.Pool with reuse (LIFO)")
+				return v
+			}
+		}
 		st := (*c).(Struct)
 		// the New field is the last field of sync.Pool
 		newf := st[len(st)-1]
@@ -377,6 +388,17 @@ func init() {
 		return Iface{}
 	})
 	reg("(*sync.Pool).Put", func(in *Interp, caller *frame, pos token.Pos, fn *ssa.Function, args []Value) Value {
+		if in.p != nil && in.cfg.Params["pool_reuse"] == 1 {
+			c := cellOf(args[0])
+			st, ok := in.p.sync[poolKey{c}].(*poolState)
+			if !ok {
+				st = &poolState{}
+				in.p.sync[poolKey{c}] = st
+			}
+			if i, isI := args[1].(Iface); !isI || i.T != nil {
+				st.items = append(st.items, args[1])
+			}
+		}
 		return nil
 	})
 	reg("(*sync/atomic.Value).Load", func(in *Interp, caller *frame, pos token.Pos, fn *ssa.Function, args []Value) Value {
@@ -643,6 +665,9 @@ func init() {
 }
 
 type onceKey struct{ c *Value }
+
+type poolKey struct{ c *Value }
+type poolState struct{ items []Value }
 
 type goWrap struct {
 	f    Value
